@@ -202,8 +202,13 @@ class _STIXBase(collections.abc.Mapping):
         assigned_properties = collections.ChainMap(kwargs, custom_props)
 
         # Establish property order: spec-defined, toplevel extension, custom.
-        toplevel_extension_props = registered_toplevel_extension_props.keys() \
-            | (kwargs.keys() - self._properties.keys() - custom_kwargs)
+        # (Lists, not sets: the order must not depend on string hashing.)
+        toplevel_extension_props = list(registered_toplevel_extension_props)
+        toplevel_extension_props.extend(
+            k for k in kwargs
+            if k not in self._properties and k not in custom_kwargs
+            and k not in registered_toplevel_extension_props
+        )
         property_order = itertools.chain(
             self._properties,
             toplevel_extension_props,
